@@ -192,15 +192,19 @@ static std::string obs_nodal(TasmanianSparseGrid const &g){
     std::vector<double> yb; g.evaluateBatch(x, yb);
     bool ev = true, eb = true, ef = true; double worst = 0.0;
     std::vector<double> y((size_t) outs), yf((size_t) outs);
+    // rounding is relative to the size of the data of the output (a zero value next to values of 1e7 is reproduced to 1e-9, not to 1e-25)
+    std::vector<double> vmax((size_t) outs, 0.0);
+    for(int i=0; i<nl; i++) for(int k=0; k<outs; k++) vmax[(size_t) k] = std::max(vmax[(size_t) k], std::fabs(v[(size_t) i * outs + k]));
+    auto near = [&](double a, double ref, int k){ return std::fabs(a - ref) <= 1.0e-9 * (1.0 + std::fabs(ref)) + 1.0e-12 * vmax[(size_t) k]; };
     for(int i=0; i<nl; i++){
         std::vector<double> xi(x.begin() + (size_t) i * d, x.begin() + (size_t) (i + 1) * d);
         g.evaluate(xi, y); g.evaluateFast(xi, yf);
         for(int k=0; k<outs; k++){
             double ref = v[(size_t) i * outs + k];
-            ev = ev && close(y[(size_t) k], ref, 1.0e-9);
-            ef = ef && close(yf[(size_t) k], ref, 1.0e-9);
-            eb = eb && close(yb[(size_t) i * outs + k], ref, 1.0e-9);
-            worst = std::max(worst, std::fabs(y[(size_t) k] - ref) / (1.0 + std::fabs(ref)));
+            ev = ev && near(y[(size_t) k], ref, k);
+            ef = ef && near(yf[(size_t) k], ref, k);
+            eb = eb && near(yb[(size_t) i * outs + k], ref, k);
+            worst = std::max(worst, std::fabs(y[(size_t) k] - ref) / (1.0 + std::fabs(ref) + 1.0e-3 * vmax[(size_t) k]));
         }
     }
     char b[64]; snprintf(b, 64, "%.2e", worst);
